@@ -1,6 +1,311 @@
+/-
+Helper lemmas for `Props/C05Tx`: the tree of a write transaction (`Model/BTree`, invariant
+`inTxN`) seen through a header-forgetting map into the cursor's trees (`Model/Cursor`) satisfies
+the hypotheses of the cursor theorems.  The map itself (`C05Tx.toCur`) is defined in the property
+file, which imports this one; the lemmas here are therefore stated for ANY triple of functions
+`ci`/`f`/`g` satisfying the defining equations of `toCurItem`/`toCur`/`toCurKids` (`IsToCur`).
+-/
 import Bolt.Lemmas.Cursor
 import Bolt.Model.BTreeInv
+import Bolt.Lemmas.BTreeOps
 namespace Bolt.CursorTxL
-open Bolt Bolt.BTree
+open Bolt Bolt.BTree Bolt.BTree.OpsL
+
+/-- the defining equations of `C05Tx.toCurItem` / `toCur` / `toCurKids` -/
+structure IsToCur (ci : Item → Cur.Item) (f : N → Cur.Tree)
+    (g : List (Bytes × N) → List (Bytes × Cur.Tree)) : Prop where
+  key : ∀ i, (ci i).key = i.key
+  leaf : ∀ h items, f (.leaf h items) = .leaf (items.map ci)
+  branch : ∀ h kids, f (.branch h kids) = .branch (g kids)
+  nil : g [] = []
+  cons : ∀ s c r, g ((s, c) :: r) = (s, f c) :: g r
+
+section
+variable {ci : Item → Cur.Item} {f : N → Cur.Tree} {g : List (Bytes × N) → List (Bytes × Cur.Tree)}
+
+/-! ### flatten / depth -/
+
+theorem cur_flatten_leaf (items : List Cur.Item) : Cur.flatten (.leaf items) = items := by rw [Cur.flatten]
+theorem cur_flatten_branch (kids : List (Bytes × Cur.Tree)) :
+    Cur.flatten (.branch kids) = Cur.flattenKids kids := by rw [Cur.flatten]
+theorem cur_flattenKids_nil : Cur.flattenKids [] = [] := by rw [Cur.flattenKids]
+theorem cur_flattenKids_cons (s : Bytes) (c : Cur.Tree) (r : List (Bytes × Cur.Tree)) :
+    Cur.flattenKids ((s, c) :: r) = Cur.flatten c ++ Cur.flattenKids r := by rw [Cur.flattenKids]
+
+theorem cur_depth_leaf (items : List Cur.Item) : Cur.depth (.leaf items) = 1 := by rw [Cur.depth]
+theorem cur_depth_branch (kids : List (Bytes × Cur.Tree)) :
+    Cur.depth (.branch kids) = 1 + Cur.depthKids kids := by rw [Cur.depth]
+theorem cur_depthKids_nil : Cur.depthKids [] = 0 := by rw [Cur.depthKids]
+theorem cur_depthKids_cons (s : Bytes) (c : Cur.Tree) (r : List (Bytes × Cur.Tree)) :
+    Cur.depthKids ((s, c) :: r) = max (Cur.depth c) (Cur.depthKids r) := by rw [Cur.depthKids]
+
+mutual
+theorem flatten_eq (T : IsToCur ci f g) : ∀ t : N, Cur.flatten (f t) = (flatten t).map ci
+  | .leaf h items => by rw [T.leaf, cur_flatten_leaf, flatten_leaf]
+  | .branch h kids => by rw [T.branch, cur_flatten_branch, flatten_branch, flattenKids_eq T kids]
+theorem flattenKids_eq (T : IsToCur ci f g) : ∀ kids : List (Bytes × N),
+    Cur.flattenKids (g kids) = (flattenKids kids).map ci
+  | [] => by rw [T.nil, cur_flattenKids_nil, flattenKids_nil]; rfl
+  | (s, c) :: r => by
+    rw [T.cons, cur_flattenKids_cons, flattenKids_cons, List.map_append, flatten_eq T c,
+      flattenKids_eq T r]
+end
+
+mutual
+theorem depth_eq (T : IsToCur ci f g) : ∀ t : N, Cur.depth (f t) = depth t
+  | .leaf h items => by rw [T.leaf, cur_depth_leaf, depth_leaf]
+  | .branch h kids => by rw [T.branch, cur_depth_branch, depth_branch, depthKids_eq T kids]
+theorem depthKids_eq (T : IsToCur ci f g) : ∀ kids : List (Bytes × N),
+    Cur.depthKids (g kids) = depthKids kids
+  | [] => by rw [T.nil, cur_depthKids_nil, depthKids_nil]
+  | (s, c) :: r => by
+    rw [T.cons, cur_depthKids_cons, depthKids_cons, depth_eq T c, depthKids_eq T r]
+end
+
+/-! ### branches are non-empty -/
+
+mutual
+theorem bne (T : IsToCur ci f g) : ∀ (n : N) (root pmat : Bool) (lo hi : Option Bytes),
+    inTxN root pmat lo hi n = true → Cur.BranchesNonEmpty (f n)
+  | .leaf h items, _, _, _, _, _ => by rw [T.leaf]; simp only [Cur.BranchesNonEmpty]
+  | .branch h kids, root, pmat, lo, hi, hn => by
+    obtain ⟨_, h2, _, _, hk⟩ := (inTxN_branch ..).mp hn
+    rw [T.branch]
+    simp only [Cur.BranchesNonEmpty]
+    refine ⟨?_, bneKids T kids _ _ _ _ hk⟩
+    cases kids with
+    | nil => simp at h2
+    | cons p r => obtain ⟨s, c⟩ := p; rw [T.cons]; exact List.cons_ne_nil _ _
+theorem bneKids (T : IsToCur ci f g) : ∀ (kids : List (Bytes × N)) (pmat : Bool) (lo hi : Option Bytes)
+    (d : Nat), inTxKids pmat lo hi kids d = true → Cur.BranchesNonEmptyKids (g kids)
+  | [], _, _, _, _, _ => by rw [T.nil]; simp only [Cur.BranchesNonEmptyKids]
+  | (s, c) :: r, pmat, lo, hi, d, hk => by
+    obtain ⟨_, _, hc, hr⟩ := (inTxKids_cons ..).mp hk
+    rw [T.cons]
+    simp only [Cur.BranchesNonEmptyKids]
+    exact ⟨bne T c _ _ _ _ hc, bneKids T r _ _ _ _ hr⟩
+end
+
+/-! ### search-tree order -/
+
+theorem geLo_iff (lo : Option Bytes) (k : Bytes) : geLo lo k = true ↔ Cur.geLo lo k := by
+  cases lo with
+  | none => simp [geLo, Cur.geLo]
+  | some l => simp [geLo, Cur.geLo]
+
+theorem ltHi_iff (hi : Option Bytes) (k : Bytes) : ltHi hi k = true ↔ Cur.ltHi hi k := by
+  cases hi with
+  | none => simp [ltHi, Cur.ltHi]
+  | some l => simp [ltHi, Cur.ltHi]
+
+mutual
+theorem st (T : IsToCur ci f g) : ∀ (n : N) (root pmat : Bool) (lo hi : Option Bytes),
+    inTxN root pmat lo hi n = true → Cur.ST lo hi (f n)
+  | .leaf h items, root, pmat, lo, hi, hn => by
+    obtain ⟨_, _, hs, hr⟩ := (inTxN_leaf ..).mp hn
+    rw [T.leaf]
+    simp only [Cur.ST]
+    refine ⟨?_, ?_⟩
+    · rw [List.pairwise_map]
+      unfold SortedI at hs
+      simpa only [T.key] using hs
+    · intro it hit
+      obtain ⟨x, hx, rfl⟩ := List.mem_map.mp hit
+      rw [T.key]
+      exact ⟨(geLo_iff ..).mp (hr x hx).2.1, (ltHi_iff ..).mp (hr x hx).2.2⟩
+  | .branch h kids, root, pmat, lo, hi, hn => by
+    obtain ⟨_, _, hs, hr, hk⟩ := (inTxN_branch ..).mp hn
+    rw [T.branch]
+    simp only [Cur.ST]
+    exact kidsST T kids h.mat true lo lo hi _ hs (fun p hp => (hr p hp).2) hk (fun _ => rfl)
+      (fun e => Bool.noConfusion e)
+/-- `lo0` is the node's lower bound, `clo` the one `inTxKids` gives the head child: the node's
+    for the first child, the child's own separator for every other one -/
+theorem kidsST (T : IsToCur ci f g) : ∀ (kids : List (Bytes × N)) (pmat isFirst : Bool)
+    (lo0 clo hi : Option Bytes) (d : Nat), SortedK kids → (∀ p ∈ kids, InR lo0 hi p.1) →
+    inTxKids pmat clo hi kids d = true → (isFirst = true → clo = lo0) →
+    (isFirst = false → clo = kids.head?.map (·.1)) → Cur.KidsST isFirst lo0 hi (g kids)
+  | [], _, _, _, _, _, _, _, _, _, _, _ => by rw [T.nil]; simp only [Cur.KidsST]
+  | (s, c) :: r, pmat, isFirst, lo0, clo, hi, d, hs, hr, hk, h1, h2 => by
+    obtain ⟨_, _, hc, hrest⟩ := (inTxKids_cons ..).mp hk
+    have hrs := hr (s, c) (by simp)
+    have hb : (if isFirst = true then lo0 else some s) = clo := by
+      cases isFirst with
+      | true => simp [h1 rfl]
+      | false => simpa using (h2 rfl).symm
+    have hfst : isFirst = true ∨ Cur.geLo lo0 s := by
+      cases isFirst with
+      | true => exact Or.inl rfl
+      | false => exact Or.inr ((geLo_iff ..).mp hrs.1)
+    rw [T.cons]
+    cases r with
+    | nil =>
+      rw [T.nil, Cur.kidsST_single]
+      refine ⟨hfst, (ltHi_iff ..).mp hrs.2, ?_⟩
+      rw [hb]
+      simpa using st T c _ _ _ _ hc
+    | cons q r' =>
+      obtain ⟨s', c'⟩ := q
+      have hrec := kidsST T ((s', c') :: r') pmat false lo0 (some s') hi d (List.Pairwise.of_cons hs)
+        (fun p hp => hr p (List.mem_cons_of_mem _ hp)) (by simpa using hrest)
+        (fun e => Bool.noConfusion e) (fun _ => by simp)
+      rw [T.cons] at hrec ⊢
+      rw [Cur.kidsST_cons2]
+      refine ⟨hfst, (ltHi_iff ..).mp hrs.2, ?_, ?_, hrec⟩
+      · exact (List.pairwise_cons.mp hs).1 (s', c') (by simp)
+      · rw [hb]
+        simpa using st T c _ _ _ _ hc
+end
+
+/-! ### no node is unbalanced ⇒ no empty leaf below the root -/
+
+theorem anyUnb_leaf (h : Hd) (items : List Item) : anyUnb (.leaf h items) = h.unb := by rw [anyUnb]
+theorem anyUnb_branch (h : Hd) (kids : List (Bytes × N)) :
+    anyUnb (.branch h kids) = (h.unb || anyUnbKids kids) := by rw [anyUnb]
+theorem anyUnbKids_nil : anyUnbKids [] = false := by rw [anyUnbKids]
+theorem anyUnbKids_cons (s : Bytes) (c : N) (r : List (Bytes × N)) :
+    anyUnbKids ((s, c) :: r) = (anyUnb c || anyUnbKids r) := by rw [anyUnbKids]
+
+mutual
+theorem nel (T : IsToCur ci f g) : ∀ (n : N) (pmat : Bool) (lo hi : Option Bytes),
+    inTxN false pmat lo hi n = true → anyUnb n = false → Cur.NoEmptyLeaf (f n)
+  | .leaf h items, pmat, lo, hi, hn, hu => by
+    obtain ⟨_, h2, _, _⟩ := (inTxN_leaf ..).mp hn
+    rw [anyUnb_leaf] at hu
+    rw [T.leaf]
+    simp only [Cur.NoEmptyLeaf]
+    rcases h2 with h2 | h2 | h2
+    · exact Bool.noConfusion h2
+    · intro e; exact h2 (List.map_eq_nil_iff.mp e)
+    · rw [hu] at h2; exact Bool.noConfusion h2.2
+  | .branch h kids, pmat, lo, hi, hn, hu => by
+    obtain ⟨_, _, _, _, hk⟩ := (inTxN_branch ..).mp hn
+    rw [anyUnb_branch, Bool.or_eq_false_iff] at hu
+    rw [T.branch]
+    simp only [Cur.NoEmptyLeaf]
+    exact nelKids T kids _ _ _ _ hk hu.2
+theorem nelKids (T : IsToCur ci f g) : ∀ (kids : List (Bytes × N)) (pmat : Bool) (lo hi : Option Bytes)
+    (d : Nat), inTxKids pmat lo hi kids d = true → anyUnbKids kids = false →
+    Cur.NoEmptyLeafKids (g kids)
+  | [], _, _, _, _, _, _ => by rw [T.nil]; simp only [Cur.NoEmptyLeafKids]
+  | (s, c) :: r, pmat, lo, hi, d, hk, hu => by
+    obtain ⟨_, _, hc, hr⟩ := (inTxKids_cons ..).mp hk
+    rw [anyUnbKids_cons, Bool.or_eq_false_iff] at hu
+    rw [T.cons]
+    simp only [Cur.NoEmptyLeafKids]
+    exact ⟨nel T c _ _ _ hc hu.1, nelKids T r _ _ _ _ hr hu.2⟩
+end
+
+theorem nelbr (T : IsToCur ci f g) : ∀ (n : N) (root pmat : Bool) (lo hi : Option Bytes),
+    inTxN root pmat lo hi n = true → anyUnb n = false → Cur.NoEmptyLeafBelowRoot (f n)
+  | .leaf h items, _, _, _, _, _, _ => by rw [T.leaf]; simp only [Cur.NoEmptyLeafBelowRoot]
+  | .branch h kids, root, pmat, lo, hi, hn, hu => by
+    obtain ⟨_, _, _, _, hk⟩ := (inTxN_branch ..).mp hn
+    rw [anyUnb_branch, Bool.or_eq_false_iff] at hu
+    rw [T.branch]
+    simp only [Cur.NoEmptyLeafBelowRoot]
+    exact nelKids T kids _ _ _ _ hk hu.2
+
+end
+
+/-! ### `Put` never marks a node unbalanced -/
+
+mutual
+theorem committedN_anyUnb : ∀ (n : N) (root : Bool), committedN root n = true → anyUnb n = false
+  | .leaf h items, root, hc => by
+    obtain ⟨_, hu, _⟩ := (committedN_leaf ..).mp hc
+    rw [anyUnb_leaf]; exact hu
+  | .branch h kids, root, hc => by
+    obtain ⟨_, hu, _, _, hk⟩ := (committedN_branch ..).mp hc
+    rw [anyUnb_branch, hu, Bool.false_or]
+    exact committedKids_anyUnb kids _ hk
+theorem committedKids_anyUnb : ∀ (kids : List (Bytes × N)) (d : Nat), committedKids kids d = true →
+    anyUnbKids kids = false
+  | [], _, _ => anyUnbKids_nil
+  | (s, c) :: r, d, hk => by
+    obtain ⟨_, _, hc, hr⟩ := (committedKids_cons ..).mp hk
+    rw [anyUnbKids_cons, committedN_anyUnb c _ hc, committedKids_anyUnb r d hr]; rfl
+end
+
+theorem mhd_unb_false (h : Hd) (fk : Bytes) (hu : h.unb = false) : (mhd h fk).unb = false := by
+  cases hm : (mhd h fk).unb with
+  | false => rfl
+  | true => have := (mhd_unb h fk hm).2; rw [hu] at this; exact Bool.noConfusion this
+
+theorem materialize_anyUnb : ∀ n : N, anyUnb n = false → anyUnb (materialize n) = false
+  | .leaf h items, hu => by
+    rw [anyUnb_leaf] at hu
+    rw [materialize_leaf, anyUnb_leaf]; exact mhd_unb_false _ _ hu
+  | .branch h kids, hu => by
+    rw [anyUnb_branch, Bool.or_eq_false_iff] at hu
+    rw [materialize_branch, anyUnb_branch, mhd_unb_false _ _ hu.1, hu.2]; rfl
+
+theorem anyUnbKids_set : ∀ (kids : List (Bytes × N)) (i : Nat) (s : Bytes) (c' : N),
+    anyUnbKids kids = false → anyUnb c' = false → anyUnbKids (kids.set i (s, c')) = false
+  | [], _, _, _, _, _ => by rw [List.set_nil]; exact anyUnbKids_nil
+  | (s0, c0) :: r, 0, s, c', hk, hc => by
+    rw [anyUnbKids_cons, Bool.or_eq_false_iff] at hk
+    rw [List.set_cons_zero, anyUnbKids_cons, hc, hk.2]; rfl
+  | (s0, c0) :: r, i+1, s, c', hk, hc => by
+    rw [anyUnbKids_cons, Bool.or_eq_false_iff] at hk
+    rw [List.set_cons_succ, anyUnbKids_cons, hk.1, anyUnbKids_set r i s c' hk.2 hc]; rfl
+
+theorem anyUnbKids_get : ∀ (kids : List (Bytes × N)) (i : Nat) (s : Bytes) (c : N),
+    anyUnbKids kids = false → kids[i]? = some (s, c) → anyUnb c = false
+  | [], _, _, _, _, hg => by simp at hg
+  | (s0, c0) :: r, 0, s, c, hk, hg => by
+    rw [anyUnbKids_cons, Bool.or_eq_false_iff] at hk
+    simp only [List.getElem?_cons_zero, Option.some.injEq, Prod.mk.injEq] at hg
+    rw [← hg.2]; exact hk.1
+  | (s0, c0) :: r, i+1, s, c, hk, hg => by
+    rw [anyUnbKids_cons, Bool.or_eq_false_iff] at hk
+    rw [List.getElem?_cons_succ] at hg
+    exact anyUnbKids_get r i s c hk.2 hg
+
+theorem modifyAt_anyUnb (fn : N → Option N)
+    (hf : ∀ n n', fn n = some n' → anyUnb n = false → anyUnb n' = false) :
+    ∀ (path : List Nat) (n n' : N), modifyAt fn path n = some n' → anyUnb n = false → anyUnb n' = false
+  | [], n, n', h, hu => by
+    rw [modifyAt_nil] at h
+    exact hf _ _ h (materialize_anyUnb n hu)
+  | i :: rest, .leaf hd items, n', h, _ => by
+    rw [modifyAt, materialize_leaf] at h; cases h
+  | i :: rest, .branch hd kids, n', h, hu => by
+    cases hg : kids[i]? with
+    | none =>
+      rw [modifyAt, materialize_branch] at h; simp only [hg] at h; cases h
+    | some p =>
+      obtain ⟨s, c⟩ := p
+      rw [modifyAt_branch fn i rest hd kids s c hg] at h
+      obtain ⟨c', hc', rfl⟩ := Option.map_eq_some_iff.mp h
+      rw [anyUnb_branch, Bool.or_eq_false_iff] at hu
+      have hcu := modifyAt_anyUnb fn hf rest c c' hc' (anyUnbKids_get kids i s c hu.2 hg)
+      rw [anyUnb_branch, mhd_unb_false _ _ hu.1, anyUnbKids_set kids i s c' hu.2 hcu]; rfl
+
+theorem leafPut_anyUnb (k v : Bytes) : ∀ n n', leafPut k v n = some n' → anyUnb n = false →
+    anyUnb n' = false
+  | .leaf h items, n', e, hu => by
+    rw [leafPut_eq] at e; cases e; rw [anyUnb_leaf] at hu ⊢; exact hu
+  | .branch _ _, n', e, _ => by simp [leafPut] at e
+
+theorem putT_anyUnb (fuel : Nat) (t t' : N) (k v : Bytes) (h : putT fuel t k v = some t')
+    (hu : anyUnb t = false) : anyUnb t' = false := by
+  unfold putT at h
+  split at h
+  · split at h
+    · cases h; exact hu
+    · exact modifyAt_anyUnb _ (leafPut_anyUnb k v) _ _ _ h hu
+  · exact modifyAt_anyUnb _ (leafPut_anyUnb k v) _ _ _ h hu
+
+theorem applyOps_anyUnb (fuel : Nat) : ∀ (ops : List Op) (t t1 : N),
+    (∀ o ∈ ops, ∃ k v, o = Op.put k v) → applyOps fuel t ops = some t1 → anyUnb t = false →
+    anyUnb t1 = false
+  | [], t, t1, _, h, hu => by rw [applyOps] at h; cases h; exact hu
+  | o :: os, t, t1, hp, h, hu => by
+    rw [applyOps] at h
+    obtain ⟨t', e1, e2⟩ := Option.bind_eq_some_iff.mp h
+    refine applyOps_anyUnb fuel os t' t1 (fun o ho => hp o (List.mem_cons_of_mem _ ho)) e2 ?_
+    obtain ⟨k, v, rfl⟩ := hp o (by simp)
+    exact putT_anyUnb fuel t t' k v e1 hu
 
 end Bolt.CursorTxL
